@@ -140,6 +140,31 @@ def decodeCps (ctx : Ctx) (s : List Nat) : List Nat := decodeAux ctx 0 s
 /-- the same on characters -/
 def decodeRefs (ctx : Ctx) (s : List Char) : List Char := (decodeCps ctx (s.map Char.toNat)).map Char.ofNat
 
+/-! ## what becomes of a *literal* character, and references to single bytes
+
+The reverse maps (`html.TextRevEntitiesMap`, `html.AttrRevEntitiesMap`) name the bytes that must not be written
+literally when a reference decoded to them.  `literalCps ctx c` is what an HTML parser makes of the literal ASCII
+character `c` in a text node / attribute value: §13.2.3.5 "Preprocessing the input stream" turns CR into LF;
+U+0000 is dropped from text by the tree builder ("in body": parse error, ignore the token) and becomes U+FFFD in an
+attribute value; `<` starts markup in text and `&` may start a reference (`none` = not plain text). -/
+
+def literalCps (ctx : Ctx) (c : Nat) : Option (List Nat) :=
+  if c = 13 then some [10]
+  else if c = 0 then (match ctx with | .text => some [] | .attr => some [0xFFFD])
+  else if c = cAmp then none
+  else if c = 60 && ctx = .text then none
+  else some [c]
+
+/-- decimal digits of `n` (code points), most significant first -/
+def decDigitsAux : Nat → Nat → List Nat → List Nat
+  | 0, _, acc => acc
+  | f + 1, n, acc => if n < 10 then (48 + n) :: acc else decDigitsAux f (n / 10) ((48 + n % 10) :: acc)
+
+def decDigits (n : Nat) : List Nat := decDigitsAux (n + 1) n []
+
+/-- the decimal numeric character reference `&#n;` -/
+def numRef (n : Nat) : List Nat := cAmp :: cHash :: (decDigits n ++ [cSemi])
+
 /-! ## XML 1.0 -/
 
 /-- XML 1.0 §2.2 `Char` -/
@@ -168,6 +193,15 @@ def matchXmlRef (r : List Nat) : Option (Nat × Nat) :=
       let name := r.takeWhile (· ≠ cSemi)
       if (r.drop name.length).head? = some cSemi && name.all (· < 128)   -- (`pack` needs bytes)
       then (lookupNat (pack name) xmlPredefined).map (fun ch => (ch, name.length + 1)) else none
+
+/-- what an XML processor makes of the literal ASCII character `c`: in an attribute value TAB, LF and CR are
+    normalised to a space (XML 1.0 §3.3.3), in character data a CR becomes LF (§2.11); `<` and `&` are markup
+    (`none`); `attr = true` for attribute values -/
+def xmlLiteralCps (attr : Bool) (c : Nat) : Option (List Nat) :=
+  if c = 60 || c = cAmp then none
+  else if attr && (c = 9 || c = 10 || c = 13) then some [32]
+  else if c = 13 then some [10]
+  else some [c]
 
 def decodeXmlAux : Nat → List Nat → Option (List Nat)
   | _, [] => some []
